@@ -5,7 +5,7 @@ const ghostPreludeMarker = "// ---- ghost prelude ----"
 // Names the engine intercepts (their Go bodies exist for replay only).
 var ghostBuiltinNames = []string{
 	"seq", "seqOf", "bytesOf", "cat", "cat3", "cat4", "b1", "u16be", "sub", "slen", "sat", "mkseq", "seqEq", "seq0",
-	"sameSlice", "forallKey", "maxAlloc", "msnap", "mapSnap", "guardSnap", "guardVal", "snapHas", "snapGet", "mapHas", "forall", "exists", "fresh", "arrayOf", "sameArray", "ite",
+	"sameSlice", "forallKey", "maxAlloc", "ssnap", "sliceSnap", "ssLen", "ssAt", "msnap", "mapSnap", "guardSnap", "guardVal", "snapHas", "snapGet", "mapHas", "forall", "forallPairs", "forallGrid", "exists", "fresh", "arrayOf", "sameArray", "ite",
 	"evCount", "evIndex", "evArg", "evBytes", "evRet", "evTotal",
 	"holds", "holdsR", "closed", "isNilFunc", "closureIs", "closureVar", "sameFunc", "dynType", "typeIs",
 	"strBytesEq", "runeOK", "validUTF8", "utf8norm", "utf8normOf", "ovfFree", "unchanged", "fnCode", "readyAt",
@@ -73,6 +73,30 @@ func forall(lo, hi int, f func(int) bool) bool {
 	for i := lo; i < hi; i++ {
 		if !f(i) {
 			return false
+		}
+	}
+	return true
+}
+
+// forallPairs(lo, hi, f): f(i, j) for all i != j in [lo, hi).
+func forallPairs(lo, hi int, f func(int, int) bool) bool {
+	for i := lo; i < hi; i++ {
+		for j := lo; j < hi; j++ {
+			if i != j && !f(i, j) {
+				return false
+			}
+		}
+	}
+	return true
+}
+
+// forallGrid(n, m, f): f(i, j) for all 0 <= i < n, 0 <= j < m.
+func forallGrid(n, m int, f func(int, int) bool) bool {
+	for i := 0; i < n; i++ {
+		for j := 0; j < m; j++ {
+			if !f(i, j) {
+				return false
+			}
 		}
 	}
 	return true
@@ -146,6 +170,13 @@ func validUTF8(s string) bool { return string([]rune(s)) == s }
 // maxAlloc(): largest make() size requested so far (verifier only).
 func maxAlloc() int { return 0 }
 
+// ssnap is a ghost snapshot of a slice's elements.
+type ssnap[T any] struct{ s []T }
+
+func sliceSnap[T any](s []T) ssnap[T] { return ssnap[T]{append([]T{}, s...)} }
+func ssLen[T any](x ssnap[T]) int       { return len(x.s) }
+func ssAt[T any](x ssnap[T], i int) T   { return x.s[i] }
+
 // msnap is a ghost snapshot of a map's content.
 type msnap[K comparable, V any] struct{ m map[K]V }
 
@@ -176,7 +207,7 @@ func hasByte(s string, c byte) bool {
 func splitOf(s string) []string { return strings.Split(s, "/") }
 
 // sameArray(a, b): a and b share their backing array (replay: compares the first element address when both are non-empty).
-func sameArray(a, b []byte) bool {
+func sameArray[T any](a, b []T) bool {
 	return cap(a) > 0 && cap(b) > 0 && &a[:1][0] == &b[:1][0]
 }
 `
